@@ -22,6 +22,13 @@ For MProcess.calc_proj_ineq_constraint_with_var:
     gen_mp_ineq_slice  : Z -> Z * Z                        the deleted slice (start, stop) as a function of dim
     gen_mp_ineq_callee_flag : pyval                        the on_para_eq_constraint value handed to Gate.calc_proj_ineq_constraint_with_var (a constant)
 
+For the module-level functions mprocess.convert_var_to_hss / convert_hss_to_var (the layout the heap model and Model/C04_Proj.v assume):
+    gen_v2h_hs_size, gen_v2h_m_true, gen_v2h_m_false, gen_v2h_one_len, gen_v2h_one_index, gen_v2h_one_value, gen_v2h_acc_len, gen_v2h_loop_n,
+    gen_v2h_slice, gen_v2h_insert_pos, gen_v2h_reshape_true / _false : integer functions of dim, len(var) (and the loop variable);
+    gen_h2v_delete (index, len(hss)), gen_h2v_row, gen_h2v_axis.
+For the eight static methods {State,Povm,Gate,MProcess}.calc_proj_{eq,ineq}_constraint_with_var:
+    gen_static_defaults : list (string * pyval)            the default value of their on_para_eq_constraint parameter.
+
 Accepted shapes (anything else raises Unsupported: the tie is reported broken, never silently skipped):
   factory:  def f(self, on_para_eq_constraint: bool = None, <more parameters with constant defaults>) -> ...:
       optional docstring;
@@ -36,8 +43,12 @@ Accepted shapes (anything else raises Unsupported: the tie is reported broken, n
       Gate.calc_proj_ineq_constraint_with_var with a constant `on_para_eq_constraint=` keyword and exactly one
       `if <cond over on_para_eq_constraint, hs_index, len(hss)>: proj_hs = np.delete(proj_hs, np.s_[<a> : <b>])` (no else) with <a>, <b> integer
       expressions over c_sys.dim with + - * **.
+  convert_var_to_hss / convert_hss_to_var: exactly the statement skeleton listed in tr_v2h / tr_h2v below (assignments of integer
+      expressions over dim, hs_size, vector.shape[0], num_outcomes, the loop variable with + - * // ** 2; np.zeros / np.insert / reshape /
+      np.delete / flatten / hstack in the listed positions); only the INTEGER content is translated, the array operations are matched literally.
 """
-import ast, sys, os
+import ast, sys, os, warnings
+warnings.simplefilter("ignore")
 
 FACTORIES = ["func_calc_proj_eq_constraint", "func_calc_proj_eq_constraint_with_var", "func_calc_proj_ineq_constraint",
              "func_calc_proj_ineq_constraint_with_var", "func_calc_proj_physical", "func_calc_proj_physical_with_var"]
@@ -292,6 +303,166 @@ def tr_mp_ineq(fdef):
     return cond, tr_int(sl.slice.lower, dn), tr_int(sl.slice.upper, dn), const_val(kws[0].value)
 
 
+def tr_int_env(e, env):
+    """integer expression; env maps python source text (names / attribute chains) to Gallina terms; `//` is floor division"""
+    if isinstance(e, ast.Constant) and isinstance(e.value, int) and not isinstance(e.value, bool) and 0 <= e.value < 1000:
+        return "%d" % e.value
+    key = ast.unparse(e)
+    if key in env:
+        return env[key]
+    if isinstance(e, ast.BinOp):
+        if isinstance(e.op, ast.Pow):
+            if isinstance(e.right, ast.Constant) and e.right.value in (2, 3, 4):
+                t = tr_int_env(e.left, env)
+                return "(" + " * ".join([t] * e.right.value) + ")"
+            fail(e, "only ** 2, 3, 4")
+        op = {ast.Add: "+", ast.Sub: "-", ast.Mult: "*", ast.FloorDiv: "/"}.get(type(e.op))
+        if op is None:
+            fail(e, "integer operator")
+        return "(%s %s %s)" % (tr_int_env(e.left, env), op, tr_int_env(e.right, env))
+    fail(e, "unsupported integer expression %s" % key)
+
+
+def find_function(tree, name):
+    hits = [n for n in tree.body if isinstance(n, ast.FunctionDef) and n.name == name]
+    if len(hits) != 1:
+        raise Unsupported("%s: %d module-level definitions" % (name, len(hits)))
+    return hits[0]
+
+
+def is_assign(st, target=None):
+    return isinstance(st, ast.Assign) and len(st.targets) == 1 and isinstance(st.targets[0], ast.Name) and (target is None or st.targets[0].id == target)
+
+
+def call_of(e, name):
+    return isinstance(e, ast.Call) and ast.unparse(e.func) == name
+
+
+def tr_v2h(fdef):
+    """mprocess.convert_var_to_hss"""
+    b = body_wo_doc(fdef)
+    out = {}
+    if not (len(b) == 7 and is_assign(b[0], "dim") and ast.unparse(b[0].value) == "c_sys.dim" and is_assign(b[1], "hs_size") and isinstance(b[2], ast.If)
+            and isinstance(b[2].test, ast.Name) and b[2].test.id == FLAG and is_assign(b[3]) and ast.unparse(b[3].value) == "[]" and is_assign(b[4])
+            and isinstance(b[5], ast.For) and isinstance(b[6], ast.Return)):
+        fail(fdef, "convert_var_to_hss: unexpected statement skeleton")
+    env = {"dim": "dim"}
+    out["hs_size"] = tr_int_env(b[1].value, env)
+    env["hs_size"] = "(gen_v2h_hs_size dim)"          # later definitions REFER to the earlier ones (proofs rewrite with their lemmas)
+    T, E = b[2].body, b[2].orelse
+    # ---- flag True
+    if not (len(T) == 8 and is_assign(T[0]) and ast.unparse(T[0].value) in ("copy.copy(var)", "np.copy(var)", "var.copy()", "copy.deepcopy(var)")):
+        fail(b[2], "flag True must start by copying var")
+    vec = T[0].targets[0].id
+    envT = dict(env); envT["%s.shape[0]" % vec] = "len"; envT["len(%s)" % vec] = "len"
+    if not is_assign(T[1], "num_outcomes"):
+        fail(T[1], "expected num_outcomes = ...")
+    out["m_true"] = tr_int_env(T[1].value, envT)
+    envT["num_outcomes"] = "(gen_v2h_m_true dim len)"
+    if not (is_assign(T[2]) and call_of(T[2].value, "np.zeros") and len(T[2].value.args) == 1):
+        fail(T[2], "expected one = np.zeros(n, ...)")
+    one = T[2].targets[0].id
+    out["one_len"] = tr_int_env(T[2].value.args[0], envT)
+    st = T[3]
+    if not (isinstance(st, ast.Assign) and len(st.targets) == 1 and isinstance(st.targets[0], ast.Subscript) and ast.unparse(st.targets[0].value) == one):
+        fail(st, "expected one[i] = c")
+    out["one_index"] = tr_int_env(st.targets[0].slice, envT)
+    out["one_value"] = tr_int_env(st.value, envT)
+    if not (is_assign(T[4]) and call_of(T[4].value, "np.zeros") and len(T[4].value.args) == 1):
+        fail(T[4], "expected acc = np.zeros(n, ...)")
+    acc = T[4].targets[0].id
+    out["acc_len"] = tr_int_env(T[4].value.args[0], envT)
+    lp = T[5]
+    if not (isinstance(lp, ast.For) and isinstance(lp.target, ast.Name) and call_of(lp.iter, "range") and len(lp.iter.args) == 1 and len(lp.body) == 1 and not lp.orelse):
+        fail(lp, "expected for o in range(n): acc += vector[a:b]")
+    out["loop_n"] = tr_int_env(lp.iter.args[0], envT)
+    st = lp.body[0]
+    envL = dict(envT); envL[lp.target.id] = "o"
+    if not (isinstance(st, ast.AugAssign) and isinstance(st.op, ast.Add) and ast.unparse(st.target) == acc and isinstance(st.value, ast.Subscript)
+            and ast.unparse(st.value.value) == vec and isinstance(st.value.slice, ast.Slice) and st.value.slice.step is None
+            and st.value.slice.lower is not None and st.value.slice.upper is not None):
+        fail(st, "expected acc += vector[a:b]")
+    out["slice"] = "(%s, %s)" % (tr_int_env(st.value.slice.lower, envL), tr_int_env(st.value.slice.upper, envL))
+    if not (is_assign(T[6]) and ast.unparse(T[6].value) == "%s - %s" % (one, acc)):
+        fail(T[6], "expected row = one - acc")
+    row = T[6].targets[0].id
+    if not (is_assign(T[7], vec) and call_of(T[7].value, "np.insert") and len(T[7].value.args) == 3 and not T[7].value.keywords
+            and ast.unparse(T[7].value.args[0]) == vec and ast.unparse(T[7].value.args[2]) == row):
+        fail(T[7], "expected vector = np.insert(vector, pos, row)")
+    out["insert_pos"] = tr_int_env(T[7].value.args[1], envT)
+    # ---- flag False
+    if not (len(E) == 2 and is_assign(E[0], vec) and ast.unparse(E[0].value) in ("var", "copy.copy(var)", "np.copy(var)", "var.copy()") and is_assign(E[1], "num_outcomes")):
+        fail(b[2], "flag False: expected vector = var ; num_outcomes = ...")
+    out["m_false"] = tr_int_env(E[1].value, envT)
+    # ---- reshape
+    rs = b[4].value
+    if not (call_of(rs, "%s.reshape" % vec) and len(rs.args) == 1 and isinstance(rs.args[0], ast.Tuple) and len(rs.args[0].elts) == 3):
+        fail(b[4], "expected vector.reshape((a, b, c))")
+    for tag, mm in (("true", "(gen_v2h_m_true dim len)"), ("false", "(gen_v2h_m_false dim len)")):
+        envR = dict(env); envR["num_outcomes"] = mm
+        out["reshape_" + tag] = "(%s, %s, %s)" % tuple(tr_int_env(x, envR) for x in rs.args[0].elts)
+    lp = b[5]
+    if not (ast.unparse(lp.iter) == b[4].targets[0].id and len(lp.body) == 1 and ast.unparse(lp.body[0]) == "%s.append(%s)" % (b[3].targets[0].id, ast.unparse(lp.target))
+            and ast.unparse(b[6].value) == b[3].targets[0].id):
+        fail(lp, "expected the list of the reshaped blocks to be returned")
+    return out
+
+
+def tr_h2v(fdef):
+    """mprocess.convert_hss_to_var"""
+    b = body_wo_doc(fdef)
+    if not (len(b) == 2 and isinstance(b[0], ast.If) and isinstance(b[0].test, ast.Name) and b[0].test.id == FLAG and isinstance(b[1], ast.Return)):
+        fail(fdef, "convert_hss_to_var: unexpected statement skeleton")
+    T, E = b[0].body, b[0].orelse
+    if not (len(T) == 3 and is_assign(T[0]) and ast.unparse(T[0].value) == "[]" and isinstance(T[1], ast.For) and len(T[1].body) == 1 and isinstance(T[1].body[0], ast.If)):
+        fail(b[0], "flag True: expected a list built in a for loop with one if/else")
+    lp = T[1]
+    if not (call_of(lp.iter, "enumerate") and isinstance(lp.target, ast.Tuple) and len(lp.target.elts) == 2):
+        fail(lp, "expected for index, hs in enumerate(hss)")
+    idx, hs = lp.target.elts[0].id, lp.target.elts[1].id
+    seq = ast.unparse(lp.iter.args[0])
+    iff = lp.body[0]
+    lst = T[0].targets[0].id
+    if not (len(iff.body) == 1 and len(iff.orelse) == 1 and ast.unparse(iff.orelse[0]) == "%s.append(%s.flatten())" % (lst, hs)):
+        fail(iff, "else branch must append hs.flatten()")
+    st = iff.body[0]
+    inner = st.value.args[0] if isinstance(st, ast.Expr) and call_of(st.value, lst + ".append") and len(st.value.args) == 1 else None
+    if not (inner is not None and isinstance(inner, ast.Call) and isinstance(inner.func, ast.Attribute) and inner.func.attr == "flatten" and call_of(inner.func.value, "np.delete")):
+        fail(st, "expected tmp.append(np.delete(hs, r, axis=a).flatten())")
+    dl = inner.func.value
+    ax = [kw for kw in dl.keywords if kw.arg == "axis"]
+    if not (len(dl.args) == 2 and ast.unparse(dl.args[0]) == hs and len(ax) == 1):
+        fail(dl, "expected np.delete(hs, r, axis=a)")
+    names = {idx: "i", "len(%s)" % seq: "m"}
+    cond = tr_cond(iff.test, names)
+    if not (is_assign(T[2]) and ast.unparse(T[2].value) == "np.hstack(%s)" % lst and len(E) == 1 and is_assign(E[0], T[2].targets[0].id)
+            and ast.unparse(E[0].value) in ("np.reshape(%s, -1)" % seq, "np.hstack([h.flatten() for h in %s])" % seq) and ast.unparse(b[1].value) == T[2].targets[0].id):
+        fail(b[0], "expected var = np.hstack(tmp) / var = np.reshape(hss, -1); return var")
+    return cond, tr_int_env(dl.args[1], {}), tr_int_env(ax[0].value, {})
+
+
+STATICS = [("state.py", "State"), ("povm.py", "Povm"), ("gate.py", "Gate"), ("mprocess.py", "MProcess")]
+
+
+def tr_static_defaults(repo):
+    rows = []
+    for fn, cls in STATICS:
+        tree = ast.parse(open(os.path.join(repo, "quara/objects", fn)).read())
+        for meth in ("calc_proj_eq_constraint_with_var", "calc_proj_ineq_constraint_with_var"):
+            f = find_method(tree, cls, meth)
+            names = [a.arg for a in f.args.args]
+            if FLAG not in names:
+                fail(f, "no on_para_eq_constraint parameter")
+            k = names.index(FLAG) - (len(names) - len(f.args.defaults))
+            if k < 0:
+                fail(f, "on_para_eq_constraint has no default")
+            c = const_val(f.args.defaults[k])
+            if c is None:
+                fail(f, "non-constant default")
+            rows.append(("%s.%s" % (cls, meth), c))
+    return rows
+
+
 def main():
     repo, out = sys.argv[1], sys.argv[2]
     try:
@@ -311,6 +482,21 @@ def main():
         lines.append("Definition gen_mp_ineq_delete (flag : bool) (i m : Z) : bool := %s." % cond)
         lines.append("Definition gen_mp_ineq_slice (dim : Z) : Z * Z := (%s, %s)." % (lo, hi))
         lines.append("Definition gen_mp_ineq_callee_flag : pyval := %s." % cflag)
+        v2h = tr_v2h(find_function(tree2, "convert_var_to_hss"))
+        lines.append("Definition gen_v2h_hs_size (dim : Z) : Z := %s." % v2h["hs_size"])
+        for k in ("m_true", "m_false", "loop_n", "insert_pos"):
+            lines.append("Definition gen_v2h_%s (dim len : Z) : Z := %s." % (k, v2h[k]))
+        for k in ("one_len", "one_index", "one_value", "acc_len"):
+            lines.append("Definition gen_v2h_%s (dim len : Z) : Z := %s." % (k, v2h[k]))
+        lines.append("Definition gen_v2h_slice (dim len o : Z) : Z * Z := %s." % v2h["slice"])
+        lines.append("Definition gen_v2h_reshape_true (dim len : Z) : Z * Z * Z := %s." % v2h["reshape_true"])
+        lines.append("Definition gen_v2h_reshape_false (dim len : Z) : Z * Z * Z := %s." % v2h["reshape_false"])
+        cond2, row, axis = tr_h2v(find_function(tree2, "convert_hss_to_var"))
+        lines.append("Definition gen_h2v_delete (i m : Z) : bool := %s." % cond2.replace("flag", "true"))
+        lines.append("Definition gen_h2v_row : Z := %s." % row)
+        lines.append("Definition gen_h2v_axis : Z := %s." % axis)
+        lines.append("Open Scope string_scope.")
+        lines.append("Definition gen_static_defaults : list (string * pyval) := [%s]." % "; ".join("(%s, %s)" % (coq_str(n), c) for n, c in tr_static_defaults(repo)))
         open(out, "w").write("\n".join(lines) + "\n")
     except Unsupported as e:
         sys.stderr.write("UNSUPPORTED: %s\n" % e)
